@@ -524,29 +524,48 @@ func ruleMDGateIn(r *Run) {
 		if len(rcs) == 0 {
 			r.bad(key+"/reserved-filter", g.update.Pos(), "no reserved-key filter on incoming headers")
 		} else {
-			// identify which call is the whitelist (its set is a subset of the other's complement is unknowable): treat
-			// the first predicate as "reserved" and any further predicate tested in the same condition as an exception list
+			// which predicate is the reserved test and which the exception list is read off the code: some predicate,
+			// taken as "reserved" (true) with every other one false, makes the insert unreachable from the head of
+			// the loop body (the predicates may be tested in either order, in one condition or in a switch)
+			var start ssa.Instruction = rcs[0]
+			if ex, ok := g.rangeKey.(*ssa.Extract); ok {
+				if nx, ok := ex.Tuple.(*ssa.Next); ok {
+					start = nx
+				}
+			}
+			var w []*ssa.BasicBlock
 			resv := rcs[0]
-			var exc []*ssa.Call
-			exc = append(exc, rcs[1:]...)
-			q := pathQuery{fn: g.fn, start: resv, target: func(x ssa.Instruction) bool { return x == ssa.Instruction(g.update) },
-				barrier: func(x ssa.Instruction) bool { _, isNext := x.(*ssa.Next); return isNext },
-				edgeOK: func(b *ssa.BasicBlock, succ int) bool {
-					ifi := blockIf(b)
-					if ifi == nil {
-						return true
+			for ri, cand := range rcs {
+				var exc []*ssa.Call
+				for j, c := range rcs {
+					if j != ri {
+						exc = append(exc, c)
 					}
-					if ifi.Cond == ssa.Value(resv) {
-						return succ == 0
-					}
-					for _, e := range exc {
-						if ifi.Cond == ssa.Value(e) {
-							return succ == 1
+				}
+				cand := cand
+				q := pathQuery{fn: g.fn, start: start, target: func(x ssa.Instruction) bool { return x == ssa.Instruction(g.update) },
+					barrier: func(x ssa.Instruction) bool { _, isNext := x.(*ssa.Next); return isNext },
+					edgeOK: func(b *ssa.BasicBlock, succ int) bool {
+						ifi := blockIf(b)
+						if ifi == nil {
+							return true
 						}
-					}
-					return true
-				}}
-			w, _ := q.find()
+						if ifi.Cond == ssa.Value(cand) {
+							return succ == 0
+						}
+						for _, e := range exc {
+							if ifi.Cond == ssa.Value(e) {
+								return succ == 1
+							}
+						}
+						return true
+					}}
+				w, _ = q.find()
+				if w == nil {
+					resv = cand
+					break
+				}
+			}
 			r.check(w == nil, key+"/reserved-filter", g.update.Pos(), "reserved (non-whitelisted) headers never become metadata",
 				"a reserved, non-whitelisted header still reaches the metadata insert")
 			// what is withheld from the handler is an enumerated list of protocol keys: the reserved test answers
